@@ -812,3 +812,193 @@ Proof.
   - apply np_WasmGlobal; assumption.
   - apply np_WasmStack; assumption.
 Qed.
+
+(* ---- emitted length is bounded by the weight ---- *)
+Lemma write_loop_len_le dbg (wr : N -> wop -> wres) : forall ex pos offs bs fx,
+  Forall (fun o => forall pos b f, wr pos o = Ok (b, f) -> blen b <= weight o) ex ->
+  write_loop dbg wr pos ex offs = Ok (bs, fx) -> blen bs <= weights ex.
+Proof.
+  induction ex as [|o r IH]; intros pos offs bs fx HF H.
+  - rewrite write_loop_nil in H. inversion H; subst. rewrite blen_nil. lia.
+  - rewrite write_loop_cons in H. destruct offs as [|off offs']; [discriminate|].
+    destruct (dbg && negb (pos =? off)); [discriminate|].
+    apply bind_ok_inv in H. destruct H as [[b1 f1] [H1 H]].
+    apply bind_ok_inv in H. destruct H as [[b2 f2] [H2 H]]. inversion H; subst. clear H.
+    inversion HF as [|? ? Ho Hr]; subst.
+    rewrite blen_app, weights_cons. specialize (Ho _ _ _ H1). specialize (IH _ _ _ _ Hr H2). lia.
+Qed.
+
+Lemma write_op_leaf_len_le dbg e uo refs offsets pos o b f :
+  (forall ex, o <> WoEntryValue ex) -> wf_enc e = true ->
+  write_op dbg e uo refs offsets pos o = Ok (b, f) -> blen b <= weight o.
+Proof.
+  intros Hne He H.
+  pose proof (wf_enc_asize e He) as Ha. pose proof (iptr_size_le e He) as Hi.
+  assert (Hword : word_size (e_fmt64 e) <= 8) by (unfold word_size; destruct (e_fmt64 e); lia).
+  destruct o; try (exfalso; eapply Hne; reflexivity); cbn [write_op weight] in *.
+  all: inv_all.
+  all: len_facts.
+  all: rewrite ?blen_cons, ?blen_app, ?blen_cons, ?blen_app, ?blen_cons, ?blen_nil in *.
+  all: repeat match goal with
+       | Hx : _ = uleb128_size ?v |- _ => pose proof (uleb128_size_le v); rewrite <- Hx in *; clear Hx
+       | Hx : _ = sleb128_size ?v |- _ => pose proof (sleb128_size_le v); rewrite <- Hx in *; clear Hx
+       end.
+  all: try lia.
+Qed.
+
+Lemma write_op_len_le dbg e uo refs : wf_enc e = true -> forall o offsets pos b f,
+  write_op dbg e uo refs offsets pos o = Ok (b, f) -> blen b <= weight o.
+Proof.
+  intros He. induction o as [o Hleaf|ex IH] using wop_nested_ind; intros offsets pos b f H.
+  - eapply write_op_leaf_len_le; eauto.
+  - cbn [write_op] in H.
+    apply bind_ok_inv in H. destruct H as [len [Hlen H]].
+    apply bind_ok_inv in H. destruct H as [lb [Hlb H]].
+    apply bind_ok_inv in H. destruct H as [[inner fi] [Hw H]]. inversion H; subst. clear H.
+    unfold write_expr_with in Hw.
+    apply bind_ok_inv in Hw. destruct Hw as [[offs fin] [_ Hw]].
+    apply bind_ok_inv in Hw. destruct Hw as [[b2 f2] [Hl Hw]].
+    destruct (dbg && negb (pos + 1 + blen lb + blen b2 =? fin)); [discriminate|]. inversion Hw; subst. clear Hw.
+    assert (Hin : blen inner <= weights ex).
+    { eapply write_loop_len_le; [|exact Hl]. eapply Forall_impl; [|exact IH].
+      intros o Ho p b1 f1 H1. eapply Ho; eauto. }
+    apply write_uleb128_len in Hlb. pose proof (uleb128_size_le len).
+    cbn [weight]. fold (weights ex). rewrite blen_cons, blen_app. lia.
+Qed.
+
+(* ---- Expression::write: offsets fit, the debug assertions hold, nothing panics ---- *)
+Lemma calc_offsets_good dbg szf : forall ex pos,
+  Forall (fun o => size_good (szf o) (weight o)) ex ->
+  pos + weights ex < 2 ^ 63 ->
+  match calc_offsets dbg szf pos ex with
+  | Ok (offs, fin) =>
+      length offs = length ex /\ Forall (fun x => x < 2 ^ 63) offs /\ fin <= pos + weights ex
+  | Err _ => True
+  | _ => False
+  end.
+Proof.
+  induction ex as [|o r IH]; intros pos HF Hb.
+  - rewrite calc_offsets_nil, weights_nil. repeat split; [constructor|lia].
+  - rewrite weights_cons in Hb. inversion HF as [|? ? Ho Hr]; subst.
+    rewrite calc_offsets_cons.
+    destruct Ho as [[n [-> Hn]]|[er ->]]; cbn [bind]; [|exact I].
+    rewrite uadd_small by lia. cbn [bind].
+    specialize (IH (pos + n) Hr). destruct (calc_offsets dbg szf (pos + n) r) as [[t fin]|er| |]; cbn [bind].
+    + destruct IH as [L [F E]]; [lia|]. cbn [length]. rewrite weights_cons.
+      repeat split; [lia|constructor; [lia|exact F]|lia].
+    + exact I.
+    + apply IH. lia.
+    + apply IH. lia.
+Qed.
+
+Lemma write_loop_np dbg (wr : N -> wop -> wres) (szf : wop -> res N) : forall ex pos offs fin rest,
+  calc_offsets dbg szf pos ex = Ok (offs, fin) ->
+  Forall (fun o => forall p, p + weight o < 2 ^ 63 -> np (wr p o)) ex ->
+  Forall (fun o => forall p b f, wr p o = Ok (b, f) ->
+                   blen b <= weight o /\ (blen b < 2 ^ 64 -> szf o = Ok (blen b))) ex ->
+  pos + weights ex < 2 ^ 63 ->
+  np (write_loop dbg wr pos ex (offs ++ rest)) /\
+  (forall bs fx, write_loop dbg wr pos ex (offs ++ rest) = Ok (bs, fx) -> pos + blen bs = fin).
+Proof.
+  induction ex as [|o r IH]; intros pos offs fin rest Hc Hnp Hsz Hb.
+  - rewrite calc_offsets_nil in Hc. inversion Hc; subst. rewrite write_loop_nil.
+    split; [apply np_ok|]. intros bs fx H. inversion H; subst. rewrite blen_nil. lia.
+  - rewrite weights_cons in Hb.
+    inversion Hnp as [|? ? Hno Hnr]; subst. inversion Hsz as [|? ? Hso Hsr]; subst.
+    rewrite calc_offsets_cons in Hc.
+    apply bind_ok_inv in Hc. destruct Hc as [s [Hs Hc]].
+    apply bind_ok_inv in Hc. destruct Hc as [off' [Hoff Hc]].
+    apply bind_ok_inv in Hc. destruct Hc as [[t fin'] [Ht Hc]]. inversion Hc; subst. clear Hc.
+    cbn [app]. rewrite write_loop_cons. rewrite N.eqb_refl. cbn [negb]. rewrite andb_false_r.
+    assert (Hstep : forall b f, wr pos o = Ok (b, f) -> off' = pos + blen b /\ blen b <= weight o).
+    { intros b f Hw. destruct (Hso _ _ _ Hw) as [Hle Heq].
+      rewrite Heq in Hs by (change (2 ^ 64) with 18446744073709551616; change (2 ^ 63) with 9223372036854775808 in Hb; lia).
+      inversion Hs; subst s. rewrite uadd_small in Hoff by lia. inversion Hoff. split; [reflexivity|exact Hle]. }
+    split.
+    + apply np_bind; [apply Hno; lia|]. intros [b f] Hw. destruct (Hstep _ _ Hw) as [-> Hle].
+      destruct (IH (pos + blen b) t fin rest Ht Hnr Hsr) as [Hn _]; [lia|].
+      apply np_bind; [exact Hn|]. intros [b2 f2] _. apply np_ok.
+    + intros bs fx H.
+      apply bind_ok_inv in H. destruct H as [[b f] [Hw H]]. destruct (Hstep _ _ Hw) as [-> Hle].
+      apply bind_ok_inv in H. destruct H as [[b2 f2] [H2 H]]. inversion H; subst. clear H.
+      destruct (IH (pos + blen b) t fin rest Ht Hnr Hsr) as [_ He]; [lia|].
+      rewrite blen_app. rewrite <- (He _ _ H2). lia.
+Qed.
+
+Lemma targets_len_eq (offs : list N) (fin : N) (ex : list wop) :
+  length offs = length ex -> N.of_nat (length (offs ++ [fin])) - 1 = N.of_nat (length ex).
+Proof. intros H. rewrite app_length. cbn [length]. lia. Qed.
+
+Definition op_np_stmt dbg e uo refs (o : wop) : Prop :=
+  forall offsets pos,
+  wf_op o = true -> tgt_ok (N.of_nat (length offsets) - 1) o = true -> (1 <= length offsets)%nat ->
+  lookups_ok dbg uo (op_entries o) -> pos + weight o < 2 ^ 63 -> Forall (fun x => x < 2 ^ 63) offsets ->
+  np (write_op dbg e uo refs offsets pos o).
+
+Lemma write_expr_with_np dbg e uo refs ex base :
+  wf_enc e = true ->
+  Forall (op_np_stmt dbg e uo refs) ex ->
+  forallb wf_op ex = true -> targets_ok ex = true -> lookups_ok dbg uo (flat_map op_entries ex) ->
+  base + weights ex < 2 ^ 63 ->
+  np (write_expr_with (write_op dbg e uo refs) (size_op dbg e uo) dbg base ex).
+Proof.
+  intros He HF Hwf Htg Hlk Hb. unfold write_expr_with.
+  assert (Hsg : Forall (fun o => size_good (size_op dbg e uo o) (weight o)) ex).
+  { apply Forall_forall. intros o Hin. apply size_op_good; [exact He|eapply lookups_ok_in; eauto|].
+    pose proof (weights_in ex o Hin). lia. }
+  pose proof (calc_offsets_good dbg (size_op dbg e uo) ex base Hsg Hb) as Hc.
+  destruct (calc_offsets dbg (size_op dbg e uo) base ex) as [[offs fin]|er| |] eqn:Ec; cbn [bind];
+    [|apply np_err|destruct Hc|destruct Hc].
+  destruct Hc as [Hlen [Hoffs Hfin]].
+  assert (Hall : Forall (fun x => x < 2 ^ 63) (offs ++ [fin])).
+  { apply Forall_app. split; [exact Hoffs|]. constructor; [lia|constructor]. }
+  destruct (write_loop_np dbg (write_op dbg e uo refs (offs ++ [fin])) (size_op dbg e uo) ex base offs fin [fin] Ec)
+    as [Hn Hend].
+  - rewrite Forall_forall in HF. apply Forall_forall. intros o Hin p Hp.
+    rewrite forallb_forall in Hwf. unfold targets_ok in Htg. rewrite forallb_forall in Htg.
+    apply (HF o Hin).
+    + apply Hwf; exact Hin.
+    + rewrite (targets_len_eq _ _ _ Hlen). apply Htg; exact Hin.
+    + rewrite app_length. cbn [length]. lia.
+    + eapply lookups_ok_in; eauto.
+    + exact Hp.
+    + exact Hall.
+  - apply Forall_forall. intros o Hin p b f Hw. split.
+    + eapply write_op_len_le; eauto.
+    + intros Hlt. eapply op_size_write_all; eauto.
+  - exact Hb.
+  - apply np_bind; [exact Hn|]. intros [bs fx] Hw. rewrite (Hend _ _ Hw). rewrite N.eqb_refl.
+    cbn [negb]. rewrite andb_false_r. apply np_ok.
+Qed.
+
+Theorem write_op_np dbg e uo refs :
+  wf_enc e = true -> wf_uoffs uo = true -> forall o, op_np_stmt dbg e uo refs o.
+Proof.
+  intros He Huo. induction o as [o Hleaf|ex IH] using wop_nested_ind; unfold op_np_stmt;
+    intros offsets pos Hwf Htg Hlen Hlk Hw Hoffs.
+  - apply write_op_leaf_np; assumption.
+  - cbn [write_op wf_op tgt_ok op_entries weight] in *. fold (weights ex) in Hw.
+    assert (Hsg : Forall (fun o => size_good (size_op dbg e uo o) (weight o)) ex).
+    { apply Forall_forall. intros o Hin. apply size_op_good; [exact He|eapply lookups_ok_in; eauto|].
+      pose proof (weights_in ex o Hin). lia. }
+    destruct (sum_sizes_good dbg (size_op dbg e uo) ex 0 Hsg) as [[n [Hn Hle]]|[er Her]]; [lia| |].
+    + rewrite Hn. cbn [bind].
+      apply np_bind; [apply np_uleb; change (2 ^ 64) with 18446744073709551616; change (2 ^ 63) with 9223372036854775808 in Hw; lia|].
+      intros lb Hlb. apply write_uleb128_len in Hlb. pose proof (uleb128_size_le n).
+      apply np_bind; [|intros [bs fx] _; apply np_ok].
+      apply write_expr_with_np; try assumption. lia.
+    + rewrite Her. cbn [bind]. apply np_err.
+Qed.
+
+(* (6) the two entry points, both build modes *)
+Theorem write_expr_no_panic dbg e uo refs base ex :
+  wf_enc e = true -> wf_uoffs uo = true ->
+  forallb wf_op ex = true -> targets_ok ex = true -> lookups_ok dbg uo (flat_map op_entries ex) ->
+  base + weights ex < 2 ^ 63 ->
+  np (size_expr dbg e uo ex) /\ np (write_expr dbg e uo refs base ex).
+Proof.
+  intros He Huo Hwf Htg Hlk Hb. split.
+  - destruct (size_expr_good dbg e uo ex He Hlk) as [[n [-> _]]|[er ->]]; [lia|apply np_ok|apply np_err].
+  - unfold write_expr. apply write_expr_with_np; try assumption.
+    apply Forall_forall. intros o _. apply write_op_np; assumption.
+Qed.
